@@ -316,7 +316,7 @@ class Report:
             if h in seen:
                 continue
             seen.add(h)
-            if len(seen) > 5:
+            if len(seen) > int(os.environ.get("VERIF_MAXVIOL", "5")):
                 break
             path = REPLAYS / f"{self.cid}-{h}.json"
             path.write_text(json.dumps(v, indent=1, default=str))
